@@ -34,9 +34,7 @@ def classify(kind, rec, mir):
         return "NoRewrap"
     if kind == "incomplete-type" and gc.unsized_array(rec["events"]):
         return "SizedArrays"
-    if kind == "binding":
-        return "BindingConsistent"
-    if kind in ("edge", "return-type") and any(k == "binding" for k, _ in G.c05(mir)):
+    if kind in ("binding", "edge", "return-type") and gc.binding_inconsistent(rec):
         return "BindingConsistent"
     return None
 
